@@ -63,6 +63,8 @@ var tokens = [...]string{
 	END:         "@end",
 	COMPONENT:   "@component",
 	SLOT:        "@slot",
+	EACH:        "@each",
+	DUMP:        "@dump",
 }
 
 func String(t TokenType) string {
